@@ -2,7 +2,7 @@
 C10 — property theorems: bounds lemmas on the index-arithmetic models of `Model/C10.lean`
 (helper lemmas live in `Proofs/C10*.lean`).
 -/
-import Mahotas.Proofs.C10Loops
+import Mahotas.Proofs.C10Tables
 open Mahotas Mahotas.C10
 
 /-! ## general index arithmetic -/
@@ -168,3 +168,65 @@ theorem C10_majority_in_bounds (rows cols n : Int) (hn : 0 ≤ n) :
 example : (conv1dAccesses .mirror 5 4).length = 25 ∧ allOk (conv1dAccesses .mirror 5 4) = true := by decide
 example : (find2dAccesses 3 3 2 2 true).length = 72 ∧ allOk (find2dAccesses 3 3 0 2 true) = false := by decide
 example : (majorityAccesses 4 5 3).length = 38 ∧ allOk (majorityAccesses 2 2 (-1)) = false := by decide
+
+/-! ## B6 — `dist_transform` -/
+
+/-- **B6.** For every line length `n ≥ 1`, with the two float comparisons abstracted as arbitrary
+oracles subject only to the two facts the kernel relies on — (i) the test `s > z[0]` against
+`z[0] = -inf` succeeds (`cmp q 0 = true`; true whenever `s` is not NaN, i.e. the input holds no NaN
+and no `inf - inf`), (ii) `z[kmax+1] = +inf` is never `< q` (`lt2 q kmax = false`) — every access of
+the two loops is in range: in the do-while `0 ≤ k ≤ q-1`, so `v[k]`, `z[k]`, `f[q]`, `f[v[k]]` are in
+`v[n]`, `z[n+1]`, `f[n]` (the stored values `v[k]` are earlier `q`'s); after `++k`, `v[k]`, `z[k]`,
+`z[k+1]` with `k ≤ q ≤ n-1`; in the second loop `z[k+1]`, `v[k]`, `Df[q]`, `f[v[k]]` with `k ≤ kmax < n`;
+and `k` never becomes `-1` (the do-while leaves through `break`). -/
+theorem C10_dist_transform_in_bounds (cmp lt2 : Nat → Nat → Bool) (n : Nat) (hn : 0 < n)
+    (hcmp : ∀ q, cmp q 0 = true) (hlt : ∀ q, lt2 q (dtKmax cmp n) = false) :
+    (∀ a ∈ dtAccesses cmp lt2 n, 0 ≤ a.i ∧ a.i < a.size) ∧
+    (dtFirst cmp n (n - 1) 1 0 [0]).2.isSome = true :=
+  dtAccesses_ok cmp lt2 n hn hcmp hlt
+
+/-! non-vacuity (B6): always-pop (down to the guard) and never-pop oracles on n = 4 meet the
+    hypotheses; without assumption (i) (a NaN) the model reaches `v[-1]`. -/
+example : (∀ q : Nat, (fun (_ k : Nat) => k == 0) q 0 = true) ∧ dtKmax (fun _ k => k == 0) 4 = 1 ∧
+    allOk (dtAccesses (fun _ k => k == 0) (fun _ k => decide (k < 1)) 4) = true ∧
+    (dtAccesses (fun _ k => k == 0) (fun _ k => decide (k < 1)) 4).length = 49 :=
+  ⟨fun _ => rfl, by decide, by decide, by decide⟩
+example : dtKmax (fun _ _ => true) 4 = 3 ∧
+    allOk (dtAccesses (fun _ _ => true) (fun _ k => decide (k < 3)) 4) = true := by decide
+example : allOk (dtAccesses (fun _ _ => false) (fun _ _ => false) 3) = false := by decide
+
+/-! ## B7 — label-indexed tables -/
+
+/-- **B7, bbox_labeled.** With the allocation of `labeled.bbox` (`ndim·2·(max+1)` entries) every
+`extrema[label·2·ndim + 2j (+1)]`, `j < ndim`, is in range when `0 ≤ label ≤ max`; and conversely,
+for `ndim ≥ 1`, a label outside `[0, max]` — in particular any negative label — puts the very first
+access outside the table: this is exactly why negative labels are outside the domain. -/
+theorem C10_bbox_labeled_in_bounds (nd maxlabel label : Int) :
+    (0 ≤ label → label ≤ maxlabel →
+      ∀ a ∈ bboxAccesses nd maxlabel label, 0 ≤ a.i ∧ a.i < a.size) ∧
+    (1 ≤ nd → (∀ a ∈ bboxAccesses nd maxlabel label, 0 ≤ a.i ∧ a.i < a.size) →
+      0 ≤ label ∧ label ≤ maxlabel) :=
+  ⟨bboxAccesses_ok nd maxlabel label, bboxAccesses_bad nd maxlabel label⟩
+
+/-- **B7, labeled_foldl.** Behind the kernel's guard `label >= 0 && label < maxlabel` the access
+`result[label]` is in range for every label value (negative and too large labels are skipped). -/
+theorem C10_labeled_foldl_in_bounds (maxi label : Int) :
+    ∀ a ∈ foldlAccesses maxi label, 0 ≤ a.i ∧ a.i < a.size :=
+  foldlAccesses_ok maxi label
+
+/-- **B7, center_of_mass with labels.** For every rank, every label with `0 ≤ label ≤ max_label`
+(the kernel rejects negative labels and computes `max_label` itself) and every flat position
+`i < size` of the image: `totals[label]`, `centers[label·ndim + j]` (`j < ndim`) are inside their
+allocations (`max_label+1`, `ndim·(max_label+1)`), and `labels[i]` is inside the labels buffer
+provided it has at least `size` elements — the guard `labels.shape == img.shape` of the wrapper. -/
+theorem C10_center_of_mass_in_bounds (nd maxlabel label size lsize : Int) (h0 : 0 ≤ label)
+    (h1 : label ≤ maxlabel) (hs : size ≤ lsize) :
+    ∀ a ∈ comAccesses nd maxlabel label size lsize, 0 ≤ a.i ∧ a.i < a.size :=
+  comAccesses_ok nd maxlabel label size lsize h0 h1 hs
+
+/-! non-vacuity (B7) -/
+example : (bboxAccesses 2 3 3).length = 4 ∧ allOk (bboxAccesses 2 3 3) = true ∧
+    allOk (bboxAccesses 2 3 (-1)) = false ∧ allOk (bboxAccesses 2 3 4) = false := by decide
+example : foldlAccesses 3 2 = [⟨2, 3⟩] ∧ foldlAccesses 3 (-1) = [] ∧ foldlAccesses 3 3 = [] := by decide
+example : (comAccesses 2 1 1 6 6).length = 24 ∧ allOk (comAccesses 2 1 1 6 6) = true ∧
+    allOk (comAccesses 2 1 1 6 4) = false := by decide
